@@ -14,7 +14,9 @@ import (
 	"hpfscheck/internal/ssax"
 )
 
-func init() { register(&Spec{ID: "C16", Targets: []load.Target{load.Linux, load.Windows}, Run: runC16}) }
+func init() {
+	register(&Spec{ID: "C16", Targets: []load.Target{load.Linux, load.Windows}, Run: runC16})
+}
 
 func runC16(c *core.Ctx) {
 	c.Explain("Structural clauses of C16 decided from source, for every io/fs.File implementation whose ReadDir(n) computes its own page window (keyvalue.file, cache.dir; pure delegations such as os.file are inventoried): (R16.1) an io.EOF return exists, control-dependent on n > 0 and on a cursor/length comparison, and that comparison is evaluated before every nil-error return reachable with n > 0; (R16.3) every path to a nil-error return that slices the listing also stores the cursor, and every value stored to the cursor depends on the old cursor or on the listing length, never on n alone; (R16.2) every slice of the listing has bounds entailed by dominating guards (no panic when the cursor is at/after the end); (R16.4) by-name listings are sorted by construction: the helper ends in io/fs.ReadDir and every ReadDirFS implementation of the module returns entries from a sorting source; (R16.5) a failing ReadDirNames is returned wrapped in a *PathError. NOT claimed: exactly-once delivery across pages as a value-level fact, agreement of entries with Stat, mount-point children.")
